@@ -15,6 +15,7 @@ RULE = (
     "unbind/split), 1-4 tasks each with 0-3 own leaves, leaves shared between tasks, listed-but-unused leaves, heads "
     "optionally reaching the trunk around the features; explicit or defaulted tasks_params / shared_params (defaults "
     "only when the default sets are disjoint - the overlap case belongs to C12), features passed as tensor or list, "
+    "parameter groups passed as list / tuple / generator / iterator (the signature takes Iterable[Tensor]), "
     "chunk sizes, retain_graph both ways, pre-existing .grad, aggregators incl. row-order-sensitive ones (Constant "
     "with distinct weights, Krum, pref vectors) and position coding, all wrapped in a recording aggregator. Oracle: "
     "the aggregator sees row i = sum_f dloss_i/dF_f . dF_f/dshared, computed by NumPy dual numbers with the features "
@@ -35,7 +36,7 @@ LEVEL_TEXT = (
 )
 LEVEL_NOTE = "Trusted: the NumPy dual-number oracle with cuts (cross-checked against torch.autograd.grad w.r.t. the features)."
 TECHNIQUE = "property-based testing (Hypothesis) over generated trunk/heads programs with a reference-model oracle"
-REQUIRED_CLASSES = {"tasks>=2": 1, "features>=2": 1, "overlapping-task-leaves": 1, "task-without-params": 1,
+REQUIRED_CLASSES = {"containers:generator": 0, "tasks>=2": 1, "features>=2": 1, "overlapping-task-leaves": 1, "task-without-params": 1,
                     "defaults:tasks": 1, "defaults:shared": 1, "around": 1}
 
 
@@ -54,6 +55,8 @@ def _case(draw):
         "pre": jdcheck.pre_grads(rng, prog),
         "features_as_tensor": bool(rng.integers(0, 2)),
         "retain": bool(rng.integers(0, 3) == 0),
+        # the signature takes Iterable[Tensor] for shared_params and for each group of tasks_params
+        "containers": [["list", "list", "tuple", "generator", "iterator"][int(rng.integers(0, 5))] for _ in range(2)],
     }
 
 
@@ -73,6 +76,17 @@ def plan(case):
     tasks = prog["task_leaves"] if explicit_tasks else d_tasks
     overlap = bool(set(shared) & {p for t in tasks for p in t})
     return shared, tasks, overlap
+
+
+def as_container(items, kind):
+    """The documented argument type is Iterable[Tensor]: lists, tuples, generators (e.g. module.parameters()), iterators."""
+    if kind == "tuple":
+        return tuple(items)
+    if kind == "generator":
+        return (x for x in items)
+    if kind == "iterator":
+        return iter(list(items))
+    return list(items)
 
 
 def expected_updates(prog, dual_cut, dual_full, shared, tasks):
@@ -131,10 +145,12 @@ def run_case(case) -> Outcome:
     rec = jdcheck.make_recording(spec, dtype)
     feats = [g.get(f) for f in prog["features"]]
     kw = {}
+    cont = case.get("containers", ["list", "list"])
+    out.cls("containers:" + "+".join(sorted(set(cont))))
     if case["explicit_tasks"]:
-        kw["tasks_params"] = [[g.leaves[p] for p in t] for t in tasks]
+        kw["tasks_params"] = [as_container([g.leaves[p] for p in t], cont[0]) for t in tasks]
     if case["explicit_shared"]:
-        kw["shared_params"] = [g.leaves[p] for p in shared]
+        kw["shared_params"] = as_container([g.leaves[p] for p in shared], cont[1])
     try:
         mtl_backward([g.get(l) for l in prog["losses"]], feats[0] if (case["features_as_tensor"] and len(feats) == 1) else feats,
                      rec, retain_graph=case["retain"], parallel_chunk_size=case["chunk"], **kw)
